@@ -70,3 +70,17 @@ let () =
       prerr_endline ("NS because: " ^ Buffer.contents why) end;
     if not inclass then Buffer.add_string b "NS 0 "
     else (pint 0; plist ptcue (cues_of s (zero_or (tmin peses None)) (zero_or (tmax peses None)))))
+
+(* C07, teletext as the source of conversions (Model/PlainTtx.v): ttxenc: plain cues -> the delivered list of ttx_enc (only
+   inside ttx_plain_ok, else NS); plainreadttx: delivered list -> ttx_dec; convplainttx: destination code, delivered list ->
+   convert_plain ttx_dec F_enc with the writers registered in Drv_plain *)
+let rdeliveries r = rlist (fun r -> let t = ropt_with rz r in let p = rstr r in (t, p)) r
+let () =
+  register "ttxenc" (fun r ->
+    let p = Drv_plain.rplain r in
+    if not (ttx_plain_okb p) then Buffer.add_string b "NS 0 " else
+    pres (plist (fun (t, d) -> popt_with pz t; pstr d)) (ttx_enc p));
+  register "plainreadttx" (fun r -> pres Drv_plain.pplain (ttx_dec (rdeliveries r)));
+  register "convplainttx" (fun r ->
+    let d = rint r in let ds = rdeliveries r in
+    pres pstr (convert_plain ttx_dec (Hashtbl.find Drv_plain.plain_writers d) ds))
